@@ -18,6 +18,7 @@ mod fancy_layout_interpreting { include!(concat!(env!("VERIF_REPO_SRC"), "/fancy
 mod layout_parsing_formatting { include!(concat!(env!("VERIF_REPO_SRC"), "/layout_parsing_formatting.rs")); }
 
 mod loader_probe { include!("loader_probe.rs"); }
+mod tables_probe { include!("tables_probe.rs"); }
 mod struct_ser { include!(concat!(env!("VERIF_REPO_SRC"), "/struct_ser.rs")); }
 mod dev_input_rw {
   include!(concat!(env!("VERIF_REPO_SRC"), "/dev_input_rw.rs"));
@@ -53,6 +54,7 @@ fn main() {
       if prop == "C10" || prop == "C11" || prop == "C12" || prop == "C20" { std::process::exit(remapping_loop::explore(prop, secs, seed)); }
       std::process::exit(key_transforms::explore(prop, secs, seed));
     },
+    "tables" => { std::process::exit(tables_probe::tables()); },
     "anymod" => { std::process::exit(key_transforms::anymod()); },
     "c18" => {
       let seed: u64 = args[2].parse().unwrap(); let budget: u64 = args[3].parse().unwrap();
